@@ -49,6 +49,14 @@ func (r *Result) Violate(b, step int, sig, format string, a ...any) {
 	r.Stats["violations_total"]++
 }
 
+// Progress records the behaviour about to be replayed (file named by VERIF_PROGRESS): if the real code makes the
+// process die, the check re-runs exactly that behaviour alone.
+func Progress(id int) {
+	if p := os.Getenv("VERIF_PROGRESS"); p != "" {
+		_ = os.WriteFile(p, []byte(strconv.Itoa(id)), 0o644)
+	}
+}
+
 // Inc increments a counter.
 func (r *Result) Inc(k string) { r.Stats[k]++ }
 
